@@ -751,27 +751,7 @@ class SchemaValidator:
                     descendant_ref
                 )  # prevent circular dependency false positive
 
-        def validate_has_ancestor_recursive(
-            checkpoint_ref,
-            ancestor_ref,
-            visited_checkpoints=[],
-        ):
-            if checkpoint_ref is None or checkpoint_ref in visited_checkpoints:
-                return error
-
-            if checkpoint_ref not in self._checkpoints:
-                # pattern validation will have caught this
-                return []
-
-            visited_checkpoints.append(checkpoint_ref)
-            checkpoint = self._checkpoints[checkpoint_ref]
-
-            check_all_paths = (
-                guarantee_ancestry
-                and "gate_type" in checkpoint
-                and checkpoint["gate_type"] == "OR"
-            )
-
+        def validate_has_ancestor_recursive(checkpoint_ref, ancestor_ref):
             ancestor_ref = utils.reduce_ref(ancestor_ref)
             if utils.parse_ref_type(ancestor_ref) == "object_promise":
                 # convert object promise ref to its fulfiller action ref
@@ -782,7 +762,48 @@ class SchemaValidator:
                     ancestor_ref
                 ]
 
-            for dependency in checkpoint["dependencies"]:
+            # {checkpoint_ref: bool} for checkpoints that have been fully explored
+            explored_checkpoints = {}
+            # checkpoints on the current search path (a checkpoint that is reached
+            # again while it is still being explored contributes nothing)
+            checkpoints_in_progress = []
+
+            def checkpoint_has_ancestor(checkpoint_ref):
+                if checkpoint_ref is None or checkpoint_ref in checkpoints_in_progress:
+                    return False
+
+                if checkpoint_ref not in self._checkpoints:
+                    # pattern validation will have caught this
+                    return True
+
+                if checkpoint_ref in explored_checkpoints:
+                    return explored_checkpoints[checkpoint_ref]
+
+                checkpoint = self._checkpoints[checkpoint_ref]
+
+                # every path through an OR gate must lead to the ancestor
+                check_all_paths = (
+                    guarantee_ancestry
+                    and "gate_type" in checkpoint
+                    and checkpoint["gate_type"] == "OR"
+                )
+
+                checkpoints_in_progress.append(checkpoint_ref)
+                has_ancestor = check_all_paths
+                for dependency in checkpoint["dependencies"]:
+                    if dependency_has_ancestor(dependency):
+                        if not check_all_paths:
+                            has_ancestor = True
+                            break
+                    elif check_all_paths:
+                        has_ancestor = False
+                        break
+
+                checkpoints_in_progress.pop()
+                explored_checkpoints[checkpoint_ref] = has_ancestor
+                return has_ancestor
+
+            def dependency_has_ancestor(dependency):
                 if "compare" in dependency:
                     for operand in ["left", "right"]:
                         action_ref = utils.action_ref_from_dependency_ref(
@@ -791,62 +812,25 @@ class SchemaValidator:
                         if action_ref is None:
                             continue
 
-                        if action_ref == ancestor_ref:
-                            if check_all_paths:
-                                break
-                            else:
-                                return []
-
-                        referenced_action_has_ancestor = (
-                            action_ref not in self._action_checkpoint_refs
-                            or validate_has_ancestor_recursive(
-                                self._action_checkpoint_refs[action_ref],
-                                ancestor_ref,
-                                visited_checkpoints,
+                        if (
+                            action_ref == ancestor_ref
+                            or action_ref not in self._action_checkpoint_refs
+                            or checkpoint_has_ancestor(
+                                self._action_checkpoint_refs[action_ref]
                             )
-                            == []
-                        )
+                        ):
+                            return True
 
-                        if check_all_paths:
-                            if referenced_action_has_ancestor:
-                                break
+                    return False
 
-                            return error
-                        elif referenced_action_has_ancestor:
-                            return []
-                        else:
-                            return error
-
-                elif utils.is_template_entity_reference(
+                if utils.is_template_entity_reference(
                     dependency, "checkpoint", "checkpoint"
                 ):
-                    checkpoint_has_ancestor = (
-                        validate_has_ancestor_recursive(
-                            dependency["checkpoint"],
-                            ancestor_ref,
-                            visited_checkpoints,
-                        )
-                        == []
-                    )
+                    return checkpoint_has_ancestor(dependency["checkpoint"])
 
-                    if checkpoint_has_ancestor:
-                        if check_all_paths:
-                            continue
+                return False
 
-                        return []
-                    elif check_all_paths:
-                        return error
-                else:
-                    return error
-
-            if check_all_paths:
-                # if the error hasn't been returned yet,
-                # all dependencies have the guaranteed ancestor
-                return []
-            else:
-                # if [] hasn't been returned yet,
-                # the ancestor was not found
-                return error
+            return [] if checkpoint_has_ancestor(checkpoint_ref) else error
 
         if descendant_type == "action":
             if (
